@@ -1,6 +1,7 @@
 package core
 
 import (
+	"errors"
 	"fmt"
 
 	jschema "github.com/jsightapi/jsight-schema-go-library"
@@ -47,8 +48,32 @@ func (f *usedUserTypeFetcher) fetch(ut jschema.Schema) error {
 		f.alreadyProcessed[t] = struct{}{}
 		f.usedUserTypes = append(f.usedUserTypes, t)
 		if err := f.fetch(f.userTypes.GetValue(t)); err != nil {
-			return fmt.Errorf("process type %q: %w", t, err)
+			return &usedUserTypeError{typeName: t, err: err}
 		}
 	}
 	return nil
+}
+
+// usedUserTypeError tells in which user type an error occurred while the types
+// used by another type were being collected.
+type usedUserTypeError struct {
+	err      error
+	typeName string
+}
+
+func (e *usedUserTypeError) Error() string {
+	return fmt.Sprintf("process type %q: %s", e.typeName, e.err)
+}
+
+func (e *usedUserTypeError) Unwrap() error { return e.err }
+
+// failedUserType returns the name of the user type the error belongs to: the
+// innermost type named by the error, or name when the error names none.
+func failedUserType(err error, name string) string {
+	var e *usedUserTypeError
+	for errors.As(err, &e) {
+		name = e.typeName
+		err = e.err
+	}
+	return name
 }
